@@ -20,6 +20,14 @@ package neutrino
 // everything for good and waits until the client converged or the deadline
 // passed. No answer is parked longer than vncMaxHold.
 //
+// HsFail(p, stage): the next connection attempt of the client to node p fails at
+// that handshake stage (netsim FailNext; the node starts accepting if it was not
+// up yet); the step waits until the attempt was made. HsFail steps that directly
+// follow a Drop(p) are scripted BEFORE the connection is closed, so they hit the
+// redials. Extend(n) with p = q # 0: the chain grows silently, node q alone
+// announces and the step waits until q's getheaders is parked (or answered);
+// Inv(p): node p announces now; Settle / Deadline deliver what is still pending.
+//
 // The child samples the public API continuously (every change is one
 // "Sample" step) and after every step; VERIF_OUT gets one observed trace per
 // scenario, judged afterwards by TLC with specs/Client/ClientProps.tla.
@@ -143,6 +151,8 @@ type vncRun struct {
 	prevConn   []int
 	prevCaught []bool
 	nConnEv    []int
+	pendInv    map[int]bool // nodes (0-based) whose announcement of the current tip is still to come
+	prePushed  map[int]int  // per node (0-based): HsFail steps already scripted by the preceding Drop
 	stopS      chan struct{}
 	doneS      chan struct{}
 }
@@ -494,10 +504,20 @@ func vncRunOne(in vncPathIn, outFn, scratch string) (err error) {
 	go r.sampler()
 
 	think := func() { time.Sleep(time.Duration(r.rng.Intn(12)) * time.Millisecond) }
+	r.pendInv, r.prePushed = map[int]bool{}, map[int]int{}
+	flushInv := func() {
+		for i := range r.nodes {
+			if r.pendInv[i] {
+				r.nodes[i].Announce()
+				delete(r.pendInv, i)
+			}
+		}
+	}
 	sawDeadline := false
 	nEv := 0 // Extend / Reorg steps seen so far
 	steps := in.Steps
 	deadline := func(a vncAct) {
+		flushInv()
 		atomic.StoreInt32(&r.gate.allOpen, 1)
 		r.flushAll()
 		t0 := time.Now()
@@ -530,7 +550,7 @@ func vncRunOne(in vncPathIn, outFn, scratch string) (err error) {
 		a.Why = vncWhy(&o, r.net.Tip())
 		r.emit(a, o)
 	}
-	for _, st := range steps {
+	for si, st := range steps {
 		a := st.Act
 		switch a.Op {
 		case "Sample", "Init", "Conn", "Disc", "Caught":
@@ -562,8 +582,45 @@ func vncRunOne(in vncPathIn, outFn, scratch string) (err error) {
 			if !ok {
 				a.Res = "noconn"
 			}
+		case "HsFail":
+			nd := r.nodes[a.P-1]
+			if a.N < vnHsStageMin || a.N > vnHsStageMax {
+				return fmt.Errorf("HsFail: unknown stage %d", a.N)
+			}
+			if r.prePushed[a.P-1] > 0 {
+				r.prePushed[a.P-1]--
+			} else {
+				nd.FailNext(a.N)
+			}
+			if !nd.IsUp() && !r.isGone(a.P) {
+				nd.SetUp(true)
+			}
+			before := nd.ScriptLen()
+			if !r.waitFor(3*time.Second, func() bool { return nd.ScriptLen() < before || nd.ScriptLen() == 0 }) {
+				// no attempt was made (the client is connected, or does not dial): the entry stays for the next attempt
+				a.Res = "skip"
+			}
+		case "Inv":
+			if r.pendInv[a.P-1] {
+				delete(r.pendInv, a.P-1)
+				r.nodes[a.P-1].Announce()
+			} else {
+				a.Res = "skip"
+			}
 		case "Drop":
 			nd := r.nodes[a.P-1]
+			// failed redials that the path puts right after this Drop are scripted first
+			for j := si + 1; j < len(steps); j++ {
+				n := steps[j].Act
+				if n.Op == "Sample" || n.Op == "Conn" || n.Op == "Disc" || n.Op == "Caught" {
+					continue
+				}
+				if n.Op != "HsFail" || n.P != a.P || n.N < vnHsStageMin || n.N > vnHsStageMax || r.isGone(a.P) {
+					break
+				}
+				nd.FailNext(n.N)
+				r.prePushed[a.P-1]++
+			}
 			if r.isGone(a.P) {
 				// the node is shut down: connection closed, redials refused
 				if !nd.Connected() {
@@ -576,7 +633,28 @@ func vncRunOne(in vncPathIn, outFn, scratch string) (err error) {
 		case "Extend":
 			sz := r.evSize(nEv, 1)
 			nEv++
-			if sz != nil {
+			for i := range r.pendInv {
+				delete(r.pendInv, i) // superseded by the new tip
+			}
+			if a.P >= 1 && a.P <= len(r.nodes) && r.cfg.Free == 0 {
+				// the announcement of node a.P arrives first, the others are delivered by Inv steps
+				k := r.cfg.Unit * a.N
+				if sz != nil {
+					k = sz[0]
+				}
+				q := r.nodes[a.P-1]
+				before := q.Stats()["getheaders"]
+				r.net.ExtendSilent(k)
+				for i := range r.nodes {
+					if i != a.P-1 {
+						r.pendInv[i] = true
+					}
+				}
+				q.Announce()
+				if !r.waitFor(400*time.Millisecond, func() bool { return q.Stats()["getheaders"] > before }) {
+					a.Res = "noask" // information: the client did not ask the announcer
+				}
+			} else if sz != nil {
 				r.net.Extend(sz[0])
 			} else if k := r.cfg.Unit * a.N; r.cfg.Free >= 1 && k <= 600 {
 				// blocks arrive one by one, a few ms apart
@@ -595,12 +673,17 @@ func vncRunOne(in vncPathIn, outFn, scratch string) (err error) {
 		case "Reorg":
 			sz := r.evSize(nEv, 2)
 			nEv++
+			for i := range r.pendInv {
+				delete(r.pendInv, i)
+			}
 			if sz != nil && sz[1] > sz[0] {
 				r.net.Reorg(sz[0], sz[1])
 			} else {
 				r.net.Reorg(r.cfg.Unit*a.D, r.cfg.Unit*a.D+r.cfg.Unit)
 			}
-		case "Settle", "Reverify":
+		case "Settle":
+			flushInv()
+		case "Reverify":
 		case "SyncHdr", "Kick":
 			i := a.P - 1
 			atomic.StoreInt32(&r.gate.hdr[i], 1)
